@@ -167,6 +167,8 @@ pub struct World {
     delay_cyc: usize,
     pub s2c_read: usize,
     pub eof_at: Option<usize>,
+    /// when the EOF becomes visible to the reader
+    eof_due: u64,
     read_err: Option<(usize, String)>,
     s2c_dead: bool,
     read_pending_left: u8,
@@ -243,6 +245,7 @@ impl World {
             delay_cyc: 0,
             s2c_read: 0,
             eof_at: None,
+            eof_due: 0,
             read_err: None,
             s2c_dead: false,
             read_pending_left: plan.net.read_pending.first().copied().unwrap_or(0),
@@ -450,7 +453,8 @@ impl World {
                 Action::Close(reason) => {
                     self.log(Ev::ServerClose(reason.clone()));
                     if self.eof_at.is_none() {
-                        self.eof_at = Some(self.s2c.len());
+                        let at = self.s2c.len();
+                        self.set_eof(at);
                     }
                     if self.end.is_none() {
                         let (seq, ms) = (self.seq, self.now_ms());
@@ -465,6 +469,19 @@ impl World {
                 }
             }
         }
+    }
+
+    /// The stream ends at `at`; the reader sees that `eof_delay_ms` from now (and not before the
+    /// data already queued is due).
+    fn set_eof(&mut self, at: usize) {
+        if self.eof_at.is_none() {
+            let due = self.now_ms().max(self.s2c_last_due) + self.plan.net.eof_delay_ms as u64;
+            self.eof_due = due;
+            if due > self.now_ms() {
+                self.schedule(due, Timed::SegmentDue);
+            }
+        }
+        self.eof_at = Some(at);
     }
 
     fn wake_reader(&mut self) {
@@ -543,7 +560,7 @@ impl World {
                     if n >= start && n < end {
                         bytes.truncate(n - start);
                         intact = false;
-                        self.eof_at = Some(n);
+                        self.set_eof(n);
                         self.s2c_dead = true;
                         self.mark_fault(i, Some(format!("at s2c offset {}", n)));
                         // a cut exactly on a response boundary is indistinguishable from a close
@@ -697,7 +714,8 @@ impl World {
             self.wake_reader();
         }
         if meta.close_after.is_some() {
-            self.eof_at = Some(self.s2c.len());
+            let at = self.s2c.len();
+            self.set_eof(at);
             self.s2c_dead = true;
             self.end_connection("handshake_close", bytes.is_empty());
             self.wake_reader();
@@ -749,7 +767,8 @@ impl World {
         match &f.kind {
             FaultKind::CloseClean => {
                 // clean = nothing of a response is outstanding from the client's point of view
-                self.eof_at = Some(self.s2c.len());
+                let at = self.s2c.len();
+                self.set_eof(at);
                 self.s2c_dead = true;
                 self.mpd.closed = true;
                 self.end_connection("close_clean", true);
@@ -760,7 +779,7 @@ impl World {
                 let at = self.s2c_read;
                 let boundary = self.responses.iter().any(|r| r.end == at) && at == self.s2c.len();
                 self.truncate_s2c(at);
-                self.eof_at = Some(at);
+                self.set_eof(at);
                 self.s2c_dead = true;
                 self.mpd.closed = true;
                 self.end_connection("cut", boundary);
@@ -1016,7 +1035,7 @@ impl AsyncRead for ClientEndpoint {
         }
         if w.segments.is_empty() {
             if let Some(eof) = w.eof_at {
-                if w.s2c_read >= eof {
+                if w.s2c_read >= eof && now >= w.eof_due {
                     let seq = w.log(Ev::ReadEof);
                     if w.client_observed_end.is_none() {
                         w.client_observed_end = Some(seq);
